@@ -1778,3 +1778,45 @@ def _str_split(ex, c):
     if s_.ip is not None and ch == "/":
         return Opaque("Iter", items=[Str(ip=s_.ip)] + ([Str(text=str(s_.plen))] if s_.plen is not None else []))
     raise Unsupported("str::split on symbolic text")
+
+
+@summary("<* as Iterator>::filter_map")
+def _it_filter_map(ex, c):
+    it, f = c.args
+    if not (isinstance(it, Opaque) and it.kind == "Iter"):
+        raise Unsupported("filter_map over a non-list iterator")
+    out = []
+    for x in it.items:
+        r = ex.call_callable(f, [x])
+        if r.variant == "Some":
+            out.append(r.fields[0])
+    return Opaque("Iter", items=out)
+
+
+@summary("Result::unwrap_or")
+def _res_unwrap_or(ex, c):
+    r, d = c.args
+    return r.fields[0] if r.variant == "Ok" else d
+
+
+@summary("Result::unwrap_or_default")
+def _res_unwrap_or_default(ex, c):
+    r = c.args[0]
+    if r.variant == "Ok":
+        return r.fields[0]
+    raise Unsupported("Result::unwrap_or_default on Err")
+
+
+@summary("core::num::div_ceil")
+def _div_ceil(ex, c):
+    a, b = c.args
+    if ex.branch(b.t == 0):
+        raise Panic("attempt to divide by zero")
+    q = z3.UDiv(a.t, b.t)
+    return BV(z3.If(z3.URem(a.t, b.t) == 0, q, q + 1), a.signed)
+
+
+@summary("core::num::min", "core::cmp::Ord::min", "<u16 as Ord>::min", "<u32 as Ord>::min", "<u64 as Ord>::min", "<usize as Ord>::min", "<u8 as Ord>::min")
+def _int_min(ex, c):
+    a, b = c.args
+    return BV(z3.If(z3.ULE(a.t, b.t), a.t, b.t), a.signed)
